@@ -1,7 +1,8 @@
 (** Correspondence + property checker for C17 (triggers).
-    A case is one chain history: the initial balances of the action denomination, the tracked accounts,
-    and per block the model input (height, time, oracle, transactions, projected event history) together
-    with what the real chain showed after that block. *)
+    A case is one chain history: the static configuration (who may transfer the restricted coin, who owns
+    the root name), the initial balances, the trigger state InitGenesis was given (registry, queue, next id),
+    the tracked accounts, and per block the model input (height, time, oracles, transactions, projected
+    event history) together with what the real chain showed after that block. *)
 From Coq Require Import ZArith NArith List String Bool.
 From PV Require Export Trigger.Trigger Corr.CorrBase.
 Import ListNotations.
@@ -14,7 +15,14 @@ Record obs := {
   ob_txres : list (option (N * N));   (* per transaction: None = rejected; Some (id, gas used) — id 0 unless a create *)
   ob_reg : list (N * N * N);          (* registry in store order: id, owner, gas limit *)
   ob_queue : list (N * N);            (* queue in order: id, gas limit *)
-  ob_bal : list (N * Z)               (* balances of the tracked accounts *)
+  ob_bal : list (N * Z);              (* action coin of the tracked accounts *)
+  ob_rbal : list (N * Z);             (* restricted coin of the tracked accounts *)
+  ob_names : list (N * N);            (* bound names of the pool: name, owner *)
+  ob_grants : list (N * N);           (* grants between tracked accounts: granter, grantee *)
+  ob_nested : list (N * N * N);       (* triggers created by trigger actions in this block: parent id, new id, its gas limit *)
+  ob_same : option (bool * bool)      (* only for blocks without any transaction: the digest of the bank (two coins),
+                                         marker, authz and name stores is the same before and after the block;
+                                         the digest of trigger records + listeners + next id is the same *)
 }.
 
 Definition bank_of (l : list (N * Z)) : bank_t :=
@@ -27,55 +35,94 @@ Definition nb_eqb := pair_eqb N.eqb Bool.eqb.
 Definition bal_agree (accts : list N) (b : bank_t) (l : list (N * Z)) : bool :=
   forallb (fun a => Z.eqb (b a) (bank_of l a)) accts.
 
+Definition nn_mem (x : N * N) (l : list (N * N)) : bool := existsb (nn_eqb x) l.
+Definition nn_same_set (a b : list (N * N)) : bool :=
+  forallb (fun x => nn_mem x b) a && forallb (fun x => nn_mem x a) b.
+
 (** ** corr: the model's next state and outputs against the observation *)
-Definition gas_hi : N := 45000.       (* a bank send never needs more than this much gas *)
+(** an action never needs more than this much gas (ample bound; a nested creation is never "ample") *)
+Definition gas_hi0 (a : act0) : N :=
+  match a with
+  | ASend _ _ _ => 45000
+  | AMulti _ _ outs => 40000 + 25000 * N.of_nat (List.length outs)
+  | AMarker _ _ _ _ => 60000
+  | ABind _ _ _ => 60000
+  | AGrant _ _ _ => 40000
+  | ADestroy _ _ => 30000
+  end.
+
+Fixpoint gas_ample (acts : list action) (lim : N) : bool :=
+  match acts with
+  | [] => true
+  | ABasic a :: r => (gas_hi0 a <=? lim) && gas_ample r (lim - gas_hi0 a)
+  | ACreate _ _ _ :: _ => false
+  end.
 
 (** an observed failure that the model cannot explain: the oracle says "failed", yet the gas limit is
-    ample for certain and every send was affordable at that point *)
-Fixpoint unexplained (b : bank_t) (d : list (entry * bool)) (oracle : list N) : bool :=
+    ample for certain and every action was acceptable at that point *)
+Fixpoint unexplained (h : N) (t : Z) (s : state) (d : list (entry * bool)) (oracle : list N) (nest : list (N * N)) : bool :=
   match d with
   | [] => false
   | (e, ok) :: r =>
-      let acts := t_actions (fst e) in
-      if ok then unexplained (apply_all b acts) r oracle
-      else (mem (eid e) oracle && (gas_hi * N.of_nat (List.length acts) <=? snd e)
-            && match send_all b acts with Some _ => true | None => false end)
-           || unexplained b r oracle
+      let '(s1, _) := run_actions h t s e oracle nest in
+      (negb ok && mem (eid e) oracle && gas_ample (t_actions (fst e)) (snd e)
+       && match exec_all h t (t_root (fst e)) (snd e) (lookupN (eid e) nest) s (t_actions (fst e)) with
+          | Some _ => true | None => false end)
+      || unexplained h t s1 r oracle nest
   end.
 
 Definition corr_block (accts : list N) (s : state) (b : block) (o : obs) : state * list string :=
   let '(s', out) := step s b in
   (s',
    tag (list_eqb nb_eqb (map (fun x => (eid (fst x), snd x)) (o_disp out)) (ob_exec o)) "corr:executed triggers" ++
-   tag (negb (unexplained (bank s) (o_disp out) (b_oracle b))) "corr:trigger failed although gas limit and funds sufficed" ++
+   tag (negb (unexplained (b_height b) (b_time b) s (o_disp out) (b_oracle b) (b_nest b)))
+       "corr:trigger failed although gas limit sufficed and every action was acceptable" ++
    tag (list_eqb Bool.eqb (o_txres out) (map (fun r => match r with Some _ => true | None => false end) (ob_txres o)))
        "corr:transactions accepted/rejected" ++
    tag (list_eqb nnn_eqb (map (fun e => (eid e, t_owner (fst e), snd e)) (reg s')) (ob_reg o)) "corr:registry" ++
    tag (list_eqb nn_eqb (map (fun e => (eid e, snd e)) (queue s')) (ob_queue o)) "corr:queue" ++
-   tag (bal_agree accts (bank s') (ob_bal o)) "corr:balances").
+   tag (bal_agree accts (bank s') (ob_bal o)) "corr:balances" ++
+   tag (bal_agree accts (rbank s') (ob_rbal o)) "corr:restricted coin balances" ++
+   tag (nn_same_set (names s') (ob_names o)) "corr:bound names" ++
+   tag (nn_same_set (grants s') (ob_grants o)) "corr:authz grants").
 
 (** ** prop: the clauses evaluated on the observations alone *)
 Record known := { k_id : N; k_owner : N; k_event : event; k_actions : list action; k_auths : list N;
                   k_signers : list N; k_txgas : N; k_gasused : N }.
 
 Record pstate := {
-  p_known : list known;          (* accepted creations so far *)
+  p_known : list known;          (* accepted creations so far (and what genesis brought) *)
   p_reg : list (N * N * N);      (* observation after the previous block *)
   p_queue : list (N * N);
   p_bal : bank_t;
+  p_rbal : bank_t;
+  p_names : list (N * N);
+  p_grants : list (N * N);
   p_done : list N;               (* executed so far *)
   p_gone : list N;               (* executed, destroyed or otherwise vanished so far *)
   p_cal : N                      (* calibrated on the same binary in this run: the least gas one successful
                                     bank-send action costs through the router's handler (0 = not calibrated) *)
 }.
 
-Definition pinit (b : bank_t) (cal : N) : pstate :=
-  {| p_known := []; p_reg := []; p_queue := []; p_bal := b; p_done := []; p_gone := []; p_cal := cal |}.
+Definition known_of_entry (e : entry) : known :=
+  {| k_id := eid e; k_owner := t_owner (fst e); k_event := t_event (fst e); k_actions := t_actions (fst e);
+     k_auths := t_auths (fst e); k_signers := t_root (fst e); k_txgas := snd e + SetGasLimitCost;
+     k_gasused := snd e + SetGasLimitCost |}.
 
-(** least prepaid gas with which [n] send actions can all have run: n times the cost of one (the
-    calibrated one less 5 % tolerance, and never below the model's [gas_lo]) *)
-Definition min_gas_for (cal : N) (n : nat) : N :=
-  N.of_nat n * N.max gas_lo (cal * 95 / 100).
+Definition pinit (s0 : state) (cal : N) : pstate :=
+  {| p_known := map known_of_entry (reg s0 ++ queue s0);
+     p_reg := map (fun e => (eid e, t_owner (fst e), snd e)) (reg s0);
+     p_queue := map (fun e => (eid e, snd e)) (queue s0);
+     p_bal := bank s0; p_rbal := rbank s0; p_names := []; p_grants := [];
+     p_done := []; p_gone := []; p_cal := cal |}.
+
+(** least prepaid gas with which the actions can all have run: every action at least [gas_lo]; a bank send
+    at least the calibrated cost of one (less 5 % tolerance) *)
+Definition min_gas_for (cal : N) (acts : list action) : N :=
+  fold_right (fun a acc => (match a with
+                            | ABasic (ASend _ _ _) => N.max gas_lo (cal * 95 / 100)
+                            | ACreate _ _ _ => SetGasLimitCost
+                            | _ => gas_lo end) + acc) 0 acts.
 
 Definition lookup (i : N) (l : list known) : option known := find (fun k => k_id k =? i) l.
 
@@ -99,61 +146,125 @@ Definition accepted_destroys (txs : list tx) (res : list (option (N * N))) : lis
 
 Definition accepted_sends (txs : list tx) (res : list (option (N * N))) : list action :=
   flat_map (fun p => match p with
-                     | (TSend f t a, Some _) => [{| a_from := f; a_to := t; a_amt := a; a_co := [] |}]
+                     | (TSend f t a, Some _) => [ABasic (ASend f t a)]
                      | _ => [] end) (combine txs res).
 
 Definition cond_met (b : block) (ev : event) : bool :=
   match ev with
   | EvHeight h => h <=? b_height b
-  | EvTime t => t <=? b_time b
-  | EvTx name attrs => existsb (tx_matches name attrs) (b_events b)
+  | EvTime t => (t <=? b_time b)%Z
+  | EvTx name _ attrs => existsb (tx_matches name attrs) (b_events b)
   end.
+
+(** the effect of a complete action list on the observable world (banks, names, grants) *)
+Definition world_eff (s : state) (a : action) : state :=
+  match a with
+  | ABasic (ADestroy _ _) => s
+  | ABasic b => eff0 s b
+  | ACreate _ _ _ => s
+  end.
+
+Definition world_of (p : pstate) : state :=
+  {| cfg := cfg0; reg := []; queue := []; next_id := 1; bank := p_bal p; rbank := p_rbal p;
+     names := p_names p; grants := p_grants p |}.
+
+Definition action_destroys (acts : list action) : list (N * N) :=
+  flat_map (fun a => match a with ABasic (ADestroy who i) => [(who, i)] | _ => [] end) acts.
+
+(** the triggers created by actions of this block, as [known] records *)
+Definition nested_known (kn : list known) (prevq : list (N * N)) (nested : list (N * N * N)) : list known :=
+  flat_map (fun x : N * N * N =>
+    let '(p, c, lim) := x in
+    match lookup p kn, find (fun q => fst q =? p) prevq with
+    | Some k, Some q =>
+        match last (k_actions k) (ABasic (ADestroy 0 0)) with
+        | ACreate au ev acts =>
+            [{| k_id := c; k_owner := hd 0 au; k_event := ev; k_actions := map ABasic acts; k_auths := au;
+                k_signers := k_signers k; k_txgas := snd q; k_gasused := snd q |}]
+        | _ => []
+        end
+    | _, _ => []
+    end) nested.
 
 Definition prop_block (accts : list N) (p : pstate) (b : block) (o : obs) : pstate * list string :=
   let exec_ids := map fst (ob_exec o) in
   let nex := List.length exec_ids in
   let prevq := map fst (p_queue p) in
   let creates := accepted_creates (b_txs b) (ob_txres o) in
-  let destroys := accepted_destroys (b_txs b) (ob_txres o) in
-  let known' := p_known p ++ creates in
+  let nested := nested_known (p_known p) (p_queue p) (ob_nested o) in
+  let known' := p_known p ++ nested ++ creates in
+  let ok_acts := flat_map (fun x : N * bool =>
+                             if snd x then match lookup (fst x) known' with
+                                           | Some k => k_actions k | None => [] end else [])
+                          (ob_exec o) in
+  let destroys := action_destroys ok_acts ++ accepted_destroys (b_txs b) (ob_txres o) in
   let reg_ids := map (fun x => fst (fst x)) (ob_reg o) in
   let q_ids := map fst (ob_queue o) in
   let carried := skipn nex (p_queue p) in
   let newq := skipn (List.length carried) (ob_queue o) in
   let prev_reg_ids := map (fun x => fst (fst x)) (p_reg p) in
+  let new_ids := map k_id nested ++ map k_id creates in
   (* all-or-nothing: exactly the complete action lists of the successfully executed triggers, plus the
-     accepted plain sends, account for the change of every tracked balance *)
-  let ok_acts := flat_map (fun x : N * bool =>
-                             if snd x then match lookup (fst x) known' with
-                                           | Some k => k_actions k | None => [] end else [])
-                          (ob_exec o) in
-  let expect := apply_all (apply_all (p_bal p) ok_acts) (accepted_sends (b_txs b) (ob_txres o)) in
+     accepted plain sends, account for the change of every tracked balance, bound name and grant *)
+  let expect := fold_left world_eff (ok_acts ++ accepted_sends (b_txs b) (ob_txres o)) (world_of p) in
   let destroyed_ids := map snd destroys in
   let vanished := filter (fun i => negb (mem i reg_ids) && negb (mem i q_ids))
-                         (prev_reg_ids ++ prevq ++ map k_id creates) in
+                         (prev_reg_ids ++ prevq ++ new_ids) in
+  let all_failed := forallb (fun x : N * bool => negb (snd x)) (ob_exec o) in
+  let still_waiting (f : known -> bool) :=
+      forallb (fun i => match lookup i known' with Some k => negb (f k) | None => true end) reg_ids in
   let errs :=
     tag (list_eqb N.eqb exec_ids (firstn nex prevq) && (nex <=? List.length prevq)%nat)
         "prop:executed out of queue order or before being queued" ++
     tag (forallb (fun i => negb (mem i (p_done p))) exec_ids && nodup_b exec_ids) "prop:trigger executed twice" ++
     tag ((nex <=? MaximumActions)%nat) "prop:more than MaximumActions executed in one block" ++
     tag (sumN (map snd (firstn nex (p_queue p))) <=? MaximumQueueGas) "prop:more than MaximumQueueGas executed in one block" ++
+    tag ((0 <? nex)%nat || match p_queue p with [] => true | q :: _ => MaximumQueueGas <? snd q end)
+        "prop:queued trigger starved: nothing executed although the queue head fits the block's gas cap" ++
     tag (nodup_b (reg_ids ++ q_ids)) "prop:trigger in two places" ++
     tag (forallb (fun i => negb (mem i (p_gone p)) && negb (mem i exec_ids) && negb (mem i destroyed_ids)) (reg_ids ++ q_ids))
         "prop:gone trigger is back" ++
+    tag (forallb (fun i => mem i prev_reg_ids || mem i prevq || mem i new_ids) (reg_ids ++ q_ids))
+        "prop:trigger appeared without an accepted creation" ++
+    tag (forallb (fun i => mem i exec_ids || mem i destroyed_ids) vanished)
+        "prop:trigger vanished without being executed or destroyed" ++
     tag (list_eqb nn_eqb (firstn (List.length carried) (ob_queue o)) carried)
         "prop:queue lost, reordered or kept an executed item" ++
     tag (forallb (fun q => match lookup (fst q) known' with
-                           | Some k => cond_met b (k_event k) && (mem (fst q) prev_reg_ids || mem (fst q) (map k_id creates))
+                           | Some k => cond_met b (k_event k) && (mem (fst q) prev_reg_ids || mem (fst q) new_ids)
                            | None => false end) newq)
         "prop:queued without its condition being met" ++
-    tag (bal_agree accts expect (ob_bal o)) "prop:effects are not all-or-nothing" ++
+    tag (still_waiting (fun k => match k_event k with EvHeight _ => cond_met b (k_event k) | _ => false end))
+        "prop:height trigger not detected although its height is reached" ++
+    tag (still_waiting (fun k => match k_event k with EvTime _ => cond_met b (k_event k) | _ => false end))
+        "prop:time trigger not detected although its time is reached" ++
+    tag (still_waiting (fun k => match k_event k with EvTx _ _ _ => cond_met b (k_event k) | _ => false end))
+        "prop:transaction-event trigger not detected although a matching event was emitted" ++
+    tag (bal_agree accts (bank expect) (ob_bal o) && bal_agree accts (rbank expect) (ob_rbal o)
+         && nn_same_set (names expect) (ob_names o) && nn_same_set (grants expect) (ob_grants o))
+        "prop:effects are not all-or-nothing" ++
+    tag (match ob_same o with
+         | Some (m, tr) => negb all_failed || (m && (tr || negb (match newq with [] => true | _ => false end)))
+         | None => true end)
+        "prop:a failed trigger changed the stores" ++
+    (* a nested creation: by a successful trigger whose last action it is, within that trigger's own limit,
+       with authorities that are authorities of the parent *)
+    tag (forallb (fun x : N * N * N =>
+                    let '(pid, c, lim) := x in
+                    mem pid (map fst (filter (fun y : N * bool => snd y) (ob_exec o)))
+                    && match lookup pid (p_known p), find (fun q => fst q =? pid) (p_queue p), lookup c nested with
+                       | Some k, Some q, Some kc =>
+                           (lim + SetGasLimitCost <=? snd q) && forallb (fun a => mem a (k_auths k)) (k_auths kc)
+                           && negb (mem c (map k_id (p_known p)))
+                       | _, _, _ => false
+                       end) (ob_nested o))
+        "prop:trigger created by an action outside its parent's gas or authority" ++
     (* within the prepaid gas: the gas of ALL actions is charged to the one limit; a successful trigger ran
-       every one of its n actions, each costing at least the calibrated cost of one send, so its limit
-       cannot be below n times that *)
+       every one of its actions, each costing at least its minimum *)
     tag (forallb (fun x : N * bool =>
                     negb (snd x) ||
                     match lookup (fst x) known', find (fun q => fst q =? fst x) (p_queue p) with
-                    | Some k, Some q => min_gas_for (p_cal p) (List.length (k_actions k)) <=? snd q
+                    | Some k, Some q => min_gas_for (p_cal p) (k_actions k) <=? snd q
                     | _, _ => true
                     end) (ob_exec o))
         "prop:actions succeeded beyond the trigger's gas limit" ++
@@ -165,7 +276,9 @@ Definition prop_block (accts : list N) (p : pstate) (b : block) (o : obs) : psta
         "prop:destroyed after being queued or still present after destroy" ++
     tag (forallb (fun k => addrs_eqb (k_signers k) (k_auths k)
                            && forallb (fun a => forallb (fun x => mem x (k_auths k)) (a_signers a)) (k_actions k)
-                           && negb (mem (k_id k) (map k_id (p_known p)))) creates)
+                           && negb (mem (k_id k) (map k_id (p_known p)))) creates
+         && forallb (fun k => forallb (fun a => forallb (fun x => mem x (k_auths k)) (a_signers a)) (k_actions k)
+                              && forallb (fun x => mem x (k_signers k)) (k_auths k)) nested)
         "prop:action signer did not sign the creating transaction" ++
     tag (forallb (fun x => match lookup (fst x) known' with
                            | Some k => (snd x <=? MaximumTriggerGas) && (snd x + SetGasLimitCost <=? k_gasused k)
@@ -175,10 +288,25 @@ Definition prop_block (accts : list N) (p : pstate) (b : block) (o : obs) : psta
         "prop:gas limit above what the creator prepaid"
   in
   ({| p_known := known'; p_reg := ob_reg o; p_queue := ob_queue o; p_bal := bank_of (ob_bal o);
+      p_rbal := bank_of (ob_rbal o); p_names := ob_names o; p_grants := ob_grants o;
       p_done := exec_ids ++ p_done p; p_gone := exec_ids ++ destroyed_ids ++ vanished ++ p_gone p;
       p_cal := p_cal p |}, errs).
 
 (** ** histories *)
+(** the property checker alone, on the rest of a history whose model comparison has already failed *)
+Fixpoint prop_hist (accts : list N) (p : pstate) (i : N) (l : list (block * obs)) : list string :=
+  match l with
+  | [] => []
+  | (b, o) :: rest =>
+      let '(p', e2) := prop_block accts p b o in
+      match e2 with
+      | [] => prop_hist accts p' (N.succ i) rest
+      | e => map (fun t => (t ++ " @block " ++ N_to_string i)%string) e
+      end
+  end.
+
+(** first failing block; when only the model comparison failed there, the property clauses are still
+    evaluated on the remaining observations (they do not need the model) *)
 Fixpoint check_hist (accts : list N) (s : state) (p : pstate) (i : N) (l : list (block * obs)) : list string :=
   match l with
   | [] => []
@@ -188,20 +316,28 @@ Fixpoint check_hist (accts : list N) (s : state) (p : pstate) (i : N) (l : list 
       match e1 ++ e2 with
       | [] => check_hist accts s' p' (N.succ i) rest
       | e => map (fun t => (t ++ " @block " ++ N_to_string i)%string) e
+             ++ match e2 with [] => prop_hist accts p' (N.succ i) rest | _ => [] end
       end
   end.
+
+(** the start of a history: configuration, balances of the two coins, what InitGenesis was given *)
+Record start := { st_cfg : config; st_bal : list (N * Z); st_rbal : list (N * Z);
+                  st_reg : list entry; st_queue : list entry; st_next : N }.
+
+Definition state_of (g : start) : state :=
+  init_gen (st_cfg g) (bank_of (st_bal g)) (bank_of (st_rbal g)) (st_reg g) (st_queue g) (st_next g).
 
 (** [CHalt]: the chain could not produce the block after the ones shown (FinalizeBlock failed: a begin
     or end blocker panicked). *)
 Inductive case :=
-| CHist (accts : list N) (bal0 : list (N * Z)) (cal : N) (blocks : list (block * obs))
-| CHalt (accts : list N) (bal0 : list (N * Z)) (cal : N) (blocks : list (block * obs)).
+| CHist (accts : list N) (g : start) (cal : N) (blocks : list (block * obs))
+| CHalt (accts : list N) (g : start) (cal : N) (blocks : list (block * obs)).
 
 Definition check (c : case) : list string :=
   match c with
-  | CHist accts bal0 cal blocks => check_hist accts (init (bank_of bal0)) (pinit (bank_of bal0) cal) 0 blocks
-  | CHalt accts bal0 cal blocks =>
-      match check_hist accts (init (bank_of bal0)) (pinit (bank_of bal0) cal) 0 blocks with
+  | CHist accts g cal blocks => check_hist accts (state_of g) (pinit (state_of g) cal) 0 blocks
+  | CHalt accts g cal blocks =>
+      match check_hist accts (state_of g) (pinit (state_of g) cal) 0 blocks with
       | [] => [("prop:chain halted: the trigger begin/end blocker failed after block " ++ nat_to_string (List.length blocks))%string]
       | e => e
       end
